@@ -3877,9 +3877,8 @@ class ImpliesSimplifyMacro(Macro):
         elif concl == Not(prem) and rhs == concl:
             return Thm(goal)
         # case 9: (P --> Q) --> Q <--> P | Q
-        elif prem.is_implies() and rhs.is_disj() and prem.arg1.is_implies() \
-                and prem.arg1.arg1 == rhs.arg1 and prem.arg1.arg == prem.arg \
-                    and prem.arg == rhs.arg:
+        elif prem.is_implies() and rhs.is_disj() and prem.arg1 == rhs.arg1 \
+                and prem.arg == concl and concl == rhs.arg:
             return Thm(goal)
         else:
             print("goal", goal)
@@ -3917,9 +3916,8 @@ class ImpliesSimplifyMacro(Macro):
         elif concl == Not(prem) and rhs == concl:
             return logic.apply_theorem('verit_imp_simplify8', concl=goal)
         # case 9: (P --> Q) --> Q <--> P | Q
-        elif prem.is_implies() and rhs.is_disj() and prem.arg1.is_implies() \
-                and prem.arg1.arg1 == rhs.arg1 and prem.arg1.arg == prem.arg \
-                    and prem.arg == rhs.arg:
+        elif prem.is_implies() and rhs.is_disj() and prem.arg1 == rhs.arg1 \
+                and prem.arg == concl and concl == rhs.arg:
             return logic.apply_theorem('verit_imp_simplify9', concl=goal)
         else:
             print("goal", goal)
